@@ -1,6 +1,7 @@
 /-
   C10 — Honest peers negotiate by the policy table and agree on the result.
 -/
+import CedarProofs.DecisionsTie
 import CedarProofs.HandshakeLemmas
 import CedarProofs.LoopComplete
 
@@ -324,5 +325,24 @@ theorem client_learns_sid (cfg : ClientCfg) (srv : ServerScript) (o : Outcome) (
   all_goals first
     | (cases h; exact ⟨_, ‹srv.postAuth = some _›, rfl, rfl, Decidable.of_not_not (by assumption)⟩)
     | cases h
+
+
+/-- **core_is_the_code** (tie T): the level logic the theorems above reason about, `negotiateCore`, IS
+    the code of `security.negotiateSecurity` — for ALL level strings (the four standard levels, the
+    empty string of an unset field, whatever a peer sends), both search outcomes, every combination:
+    it equals `CedarGen.Decisions.negotiateSecurity`, the definition `tools/gen` (trans.go) translates
+    statement by statement from the Go source on every run (error return k ↦ `errOf k`; the
+    `Authentication` and `Encryption` fields of the negotiation as assigned on that path). A change
+    of the decision logic in Go changes the generated definition and this proof no longer checks. -/
+theorem core_is_the_code (sa ca se ce : String) (ha hc : Bool) :
+    negotiateCore sa ca se ce ha hc =
+      (let g := CedarGen.Decisions.negotiateSecurity sa ca se ce ha hc
+       (Cedar.Tie.errOf g.ret, g.authentication, g.encryption)) :=
+  Cedar.Tie.core_eq_gen sa ca se ce ha hc
+
+/-- non-vacuity (tests): the generated code on three inputs, one with an unset level -/
+example : (CedarGen.Decisions.negotiateSecurity "REQUIRED" "NEVER" "OPTIONAL" "OPTIONAL" true true).ret = 1 := by decide
+example : CedarGen.Decisions.negotiateSecurity "PREFERRED" "" "OPTIONAL" "REQUIRED" true true = ⟨0, true, true, true⟩ := by decide
+example : (CedarGen.Decisions.negotiateSecurity "OPTIONAL" "OPTIONAL" "PREFERRED" "OPTIONAL" true false).encryption = false := by decide
 
 end Cedar.C10
